@@ -233,6 +233,7 @@ func (w *vchWorld) observe(t testing.TB) vM {
 type vchCases struct {
 	Walks     [][]vM `json:"walks"`
 	Histories int    `json:"histories"`
+	Storms    int    `json:"storms"`
 }
 
 func TestVerifCacheReplay(t *testing.T) {
@@ -265,6 +266,58 @@ func TestVerifCacheReplay(t *testing.T) {
 		}
 	}
 	vchConcurrent(t, tr, store, cases.Histories, seed, ttl)
+	vchStorms(t, tr, store, cases.Storms, seed, ttl)
+}
+
+// Queue storms: 4 goroutines queue differently signed envelopes of ONE payload at the same moment
+// (the same transaction arriving from RPC and from several peers), sometimes while it is already
+// scheduled or while a retrieval runs; afterwards the queue is drained by retrievals with limit 1.
+func vchStorms(t *testing.T, tr *vTrace, store *BadgerStore, n int, seed int64, ttl int) {
+	rng := rand.New(rand.NewSource(seed*15485863 + 5))
+	for h := 0; h < n; h++ {
+		vchWipe(t, store)
+		w := vchNewWorld(store, fmt.Sprintf("s%d-q%d", seed, h))
+		tr.Emit(vM{"ev": "Reset", "storm": h, "ttl": ttl})
+		seq := func(o vM) {
+			res, _, r := w.apply(o)
+			tr.Emit(vM{"ev": "Op", "o": o, "ok": res == "ok", "res": res, "r": r, "obs": w.observe(t)})
+		}
+		switch rng.Intn(4) {
+		case 0: // already scheduled
+			seq(vM{"op": "Queue", "p": "p1", "v": "a"})
+		case 1: // queued, retrieved: body present, not scheduled
+			seq(vM{"op": "Queue", "p": "p1", "v": "b"})
+			seq(vM{"op": "Retrieve", "l": 1})
+		}
+		ops := make([]vM, 4)
+		for p := range ops {
+			ops[p] = vM{"op": "Queue", "p": "p1", "v": vchVariants[p%2]}
+		}
+		switch rng.Intn(4) {
+		case 0:
+			ops[3] = vM{"op": "Retrieve", "l": 1}
+		case 1:
+			ops[3] = vM{"op": "Queue", "p": "p2", "v": "a"}
+		}
+		var wg sync.WaitGroup
+		start := make(chan struct{})
+		for p := 1; p <= len(ops); p++ {
+			wg.Add(1)
+			go func(p int, o vM) {
+				defer wg.Done()
+				<-start
+				tr.Emit(vM{"ev": "Call", "p": p, "o": o})
+				res, _, r := w.apply(o)
+				tr.Emit(vM{"ev": "Ret", "p": p, "ok": res == "ok", "res": res, "r": r})
+			}(p, ops[p-1])
+		}
+		close(start)
+		wg.Wait()
+		tr.Emit(vM{"ev": "Obs", "obs": w.observe(t)})
+		for k := 0; k < 3; k++ {
+			seq(vM{"op": "Retrieve", "l": 1})
+		}
+	}
 }
 
 func vchRandOp(rng *rand.Rand, np int) vM {
